@@ -373,6 +373,23 @@ def _perms(xs):
 KEY_ORDERS = _perms(list(KEYS))          # all 120 insertion orders of the five documented keys
 
 
+def build_atom(a, conc, containers="list"):
+    """one abstract atom -> the dict parse_relations returns for it (fresh objects at every level)"""
+    from debian.deb822 import PkgRelation
+    t = conc.text
+    seq = tuple if containers == "tuple" else list
+    AR = (lambda e, x: (e, x)) if containers == "plain" else PkgRelation.ArchRestriction
+    BR = (lambda e, x: (e, x)) if containers == "plain" else PkgRelation.BuildRestriction
+    return {
+        "name": t["name"][a["name"]],
+        "archqual": t["qual"][a["q"]] if a["q"] else None,
+        "version": (OPS[a["v"]["op"] - 1], t["ver"][a["v"]["ver"]]) if a["v"]["some"] else None,
+        "arch": seq(AR(e["e"], t["arch"][e["id"]]) for e in a["a"]["l"]) if a["a"]["some"] else None,
+        "restrictions": seq(seq(BR(e["e"], t["prof"][e["id"]]) for e in g)
+                            for g in a["r"]["l"]) if a["r"]["some"] else None,
+    }
+
+
 def build(rel, conc, order=None, containers="list"):
     """abstract structure -> the Python form parse_relations returns.  What the abstract structure
     does not have is a dimension of the concretization:
@@ -380,24 +397,12 @@ def build(rel, conc, order=None, containers="list"):
                   insertion order KEY_ORDERS[(n + 37 * i) % 120] -- an equal dict, the same structure
       containers  "list" (what parse_relations returns) / "tuple": the arch list, the formula and
                   its groups are tuples / "plain": the entries are plain tuples, not namedtuples"""
-    from debian.deb822 import PkgRelation
-    t = conc.text
-    seq = tuple if containers == "tuple" else list
-    AR = (lambda e, x: (e, x)) if containers == "plain" else PkgRelation.ArchRestriction
-    BR = (lambda e, x: (e, x)) if containers == "plain" else PkgRelation.BuildRestriction
     out = []
     i = 0
     for alts in rel:
         o = []
         for a in alts:
-            d = {
-                "name": t["name"][a["name"]],
-                "archqual": t["qual"][a["q"]] if a["q"] else None,
-                "version": (OPS[a["v"]["op"] - 1], t["ver"][a["v"]["ver"]]) if a["v"]["some"] else None,
-                "arch": seq(AR(e["e"], t["arch"][e["id"]]) for e in a["a"]["l"]) if a["a"]["some"] else None,
-                "restrictions": seq(seq(BR(e["e"], t["prof"][e["id"]]) for e in g)
-                                    for g in a["r"]["l"]) if a["r"]["some"] else None,
-            }
+            d = build_atom(a, conc, containers)
             if order is not None:
                 d = {k: d[k] for k in KEY_ORDERS[(order + 37 * i) % len(KEY_ORDERS)]}
             o.append(d)
@@ -956,6 +961,232 @@ def type_drift(p):
     return None
 
 
+# ---- structures obtained by editing a parse result IN PLACE (spec/PkgRelationEdit.tla; the edit records and
+# their value semantics -- EditOk / ApplyEdit / EditTrail -- are PkgRelation.tla's).  An edit names the CONTAINER
+# whose mutator is called (the result list, a conjunct, a dict, its arch list, its formula, a group of it): the
+# binding calls that mutator on the real object.  How the call is SPELLED (append / += / extend / insert at the
+# end; del / pop / empty slice / remove; item / slice assignment, _replace of the namedtuple that is there;
+# d[k] = v / update / pop and re-insert) is a dimension of the concretization (`style`), not of the edit.
+KEY_OF = {"name": "name", "q": "archqual", "v": "version", "a": "arch", "r": "restrictions"}
+EDIT_LEVELS = ("conj", "alt", "key", "arch", "groups", "terms")
+EDIT_STYLES = 4
+
+
+def edit_need(e, need):
+    """payload ids an edit brings in (sizes of the concretization tables)"""
+    x, lv = e["x"], e["lv"]
+    if lv == "conj" and isinstance(x, list):
+        atoms, entries = x, []
+    elif lv == "alt" and isinstance(x, dict):
+        atoms, entries = [x], []
+    else:
+        atoms, entries = [], []
+        if lv == "key":
+            k = {"name": "name", "q": "qual"}.get(e["op"])
+            if k:
+                need[k] = max(need[k], x)
+            elif e["op"] == "v":
+                need["ver"] = max(need["ver"], x["ver"])
+            elif e["op"] == "a":
+                entries = [("arch", y) for y in x["l"]]
+            else:
+                entries = [("prof", y) for g in x["l"] for y in g]
+        elif lv == "groups" and isinstance(x, list):
+            entries = [("prof", y) for y in x]
+        elif isinstance(x, dict):
+            entries = [("arch" if lv == "arch" else "prof", x)]
+    for k, n in need_of([atoms]).items():
+        need[k] = max(need[k], n)
+    for k, y in entries:
+        need[k] = max(need[k], y["id"])
+    return need
+
+
+def apply_edit(p, e, conc, style=0):
+    """ONE mutator call on the live structure p (what parse_relations returned): the edit e of the
+    specification, new items built from the concretization table.  Exceptions propagate (observations)."""
+    from debian.deb822 import PkgRelation
+    lv, op, k = e["lv"], e["op"], e["k"] - 1
+    AR, BR = PkgRelation.ArchRestriction, PkgRelation.BuildRestriction
+    t = conc.text
+    if lv == "conj":
+        lst, new = p, lambda: [build_atom(a, conc) for a in e["x"]]
+    elif lv == "alt":
+        lst, new = p[e["i"] - 1], lambda: build_atom(e["x"], conc)
+    else:
+        d = p[e["i"] - 1][e["j"] - 1]
+        if lv == "key":
+            key, x = KEY_OF[op], e["x"]
+            if op == "name":
+                val = t["name"][x]
+            elif op == "q":
+                val = t["qual"][x] if x else None
+            elif op == "v":
+                val = (OPS[x["op"] - 1], t["ver"][x["ver"]]) if x["some"] else None
+            elif op == "a":
+                val = [AR(y["e"], t["arch"][y["id"]]) for y in x["l"]] if x["some"] else None
+            else:
+                val = [[BR(y["e"], t["prof"][y["id"]]) for y in g] for g in x["l"]] if x["some"] else None
+            if style % 4 == 0:
+                d[key] = val
+            elif style % 4 == 1:
+                d.update({key: val})
+            elif style % 4 == 2:
+                d.update(**{key: val})
+            else:
+                d.pop(key)
+                d[key] = val
+            return
+        if lv == "arch":
+            lst, new = d["arch"], lambda: AR(e["x"]["e"], t["arch"][e["x"]["id"]])
+        elif lv == "groups":
+            lst, new = d["restrictions"], lambda: [BR(y["e"], t["prof"][y["id"]]) for y in e["x"]]
+        else:
+            lst, new = d["restrictions"][e["g"] - 1], lambda: BR(e["x"]["e"], t["prof"][e["x"]["id"]])
+    if op == "append":
+        if style % 4 == 0:
+            lst.append(new())
+        elif style % 4 == 1:
+            lst += [new()]
+        elif style % 4 == 2:
+            lst.extend(x for x in [new()])
+        else:
+            lst.insert(len(lst), new())
+    elif op == "insert":
+        if style % 2 == 0:
+            lst.insert(k, new())
+        else:
+            lst[k:k] = [new()]
+    elif op == "del":
+        if style % 4 == 0:
+            del lst[k]
+        elif style % 4 == 1:
+            lst.pop(k)
+        elif style % 4 == 2 or lst.index(lst[k]) != k:     # (remove takes the FIRST equal item)
+            lst[k:k + 1] = []
+        else:
+            lst.remove(lst[k])
+    elif op == "set":
+        x = new()
+        old = lst[k]
+        if style % 2 == 1 and isinstance(old, tuple) and hasattr(old, "_replace") and isinstance(x, tuple) and x[1] == old[1]:
+            lst[k] = old._replace(enabled=x[0])             # the namedtuple that is there, negated
+        elif style % 4 == 2:
+            lst[k:k + 1] = [x]
+        else:
+            lst[k] = x
+    elif op == "rev":
+        if style % 2 == 0:
+            lst.reverse()
+        else:
+            lst[:] = lst[::-1]
+    else:
+        raise core.MachineryError("unknown edit %r" % (e,))
+
+
+def describe_edit(e, conc):
+    """message text only"""
+    at = "result" + ("" if e["lv"] == "conj" else "[%d]" % (e["i"] - 1) if e["lv"] == "alt" else "[%d][%d]" % (e["i"] - 1, e["j"] - 1))
+    if e["lv"] == "key":
+        return "%s[%r] = <new value>" % (at, KEY_OF[e["op"]])
+    at += {"arch": "['arch']", "groups": "['restrictions']", "terms": "['restrictions'][%d]" % (e["g"] - 1)}.get(e["lv"], "")
+    return {"append": "%s.append(<new>)", "insert": "%s.insert(%d, <new>)", "del": "del %s[%d]", "set": "%s[%d] = <new / negated twin>",
+            "rev": "%s.reverse()"}[e["op"]] % ((at,) if e["op"] in ("append", "rev") else (at, e["k"] - 1))
+
+
+def run_edits(start_py, edits, trail_abs, conc, api=0, style=0, each=True, first=None):
+    """the history of PkgRelationEdit on the real class: format and parse the start structure, apply the edits to
+    the PARSED objects, and -- after every edit (each) or after the last one -- format / parse / format what the
+    caller now holds.  Expected structures are TLC's (trail_abs[n], built independently of the live object).
+    -> (message or None, last string)"""
+    o = first or run_real(start_py, api)
+    msg = judge(start_py, o)
+    if msg:
+        return msg, o["s"]
+    live, s = o["p"], o["s"]
+    s_last, done = s, []
+    for n, e in enumerate(edits):
+        done.append(describe_edit(e, conc))
+        try:
+            apply_edit(live, e, conc, style + n)
+        except Exception as ex:       # noqa: BLE001 -- observation
+            return "after result = parse_relations(%s): %s raised %s: %s" % (ab(s), "; ".join(done), type(ex).__name__, ex), s
+        if not each and n < len(edits) - 1:
+            continue
+        want = build(trail_abs[n], conc)
+        if live != want:
+            return "after result = parse_relations(%s): %s: the structure the caller holds is %s, specification (ApplyEdit): %s" % (
+                ab(s), "; ".join(done), ab(live), ab(want)), s
+        oe = run_real(live, api + n)
+        m = judge(want, oe)
+        if m:
+            return "result = parse_relations(%s); %s; now r = result = %s: %s" % (ab(s), "; ".join(done), ab(want, 300), m), oe["s"]
+        s_last = oe["s"]
+    return None, s_last
+
+
+def gen_edits(rng, live, conc, n):
+    """input generation for the recorded executions: n random applicable edits (abstract records with interned
+    payload ids) for the live structure, applied as they are drawn.  Yields nothing the specification does not
+    check: TLC re-derives the edited structure with EditTrail and rejects an edit that is not applicable."""
+    from debian.deb822 import PkgRelation
+
+    def entry(kind):
+        return {"e": rng.random() < 0.5, "id": conc.intern(kind, gen_payload(rng, kind))}
+
+    def atom():
+        d = random_structure(rng)[0][0]
+        return abstract([[d]], conc)[0][0]
+    out = []
+    for step in range(n):
+        atoms = [(i, j, d) for i, alts in enumerate(live) for j, d in enumerate(alts)]
+        nested = [(i, j, d) for i, j, d in atoms if d["arch"] is not None or d["restrictions"] is not None]
+        lv = rng.choice(EDIT_LEVELS if nested else ("conj", "alt", "key"))
+        i, j, d = rng.choice(nested if lv in ("arch", "groups", "terms") else atoms)
+        if lv == "arch" and d["arch"] is None:
+            lv = "groups"
+        if lv in ("groups", "terms") and d["restrictions"] is None:
+            lv = "arch"
+        e = {"lv": lv, "op": "", "i": i + 1, "j": j + 1, "g": 0, "k": 0, "x": 0}
+        if lv == "key":
+            e["op"] = rng.choice(("name", "q", "v", "a", "r"))
+            none = rng.random() < 0.3
+            e["x"] = (conc.intern("name", gen_payload(rng, "name")) if e["op"] == "name" else
+                      (0 if none else conc.intern("qual", gen_payload(rng, "qual"))) if e["op"] == "q" else
+                      ({"some": False, "op": 0, "ver": 0} if none else
+                       {"some": True, "op": rng.randint(1, 5), "ver": conc.intern("ver", gen_payload(rng, "ver"))}) if e["op"] == "v" else
+                      ({"some": False, "l": []} if none else
+                       {"some": True, "l": [entry("arch") for _ in range(rng.randint(1, 2))]}) if e["op"] == "a" else
+                      ({"some": False, "l": []} if none else
+                       {"some": True, "l": [[entry("prof") for _ in range(rng.randint(1, 2))] for _ in range(rng.randint(1, 2))]}))
+        else:
+            if lv == "conj":
+                lst, e["i"], e["j"] = live, 0, 0
+                new = lambda: [atom() for _ in range(rng.randint(1, 2))]           # noqa: E731
+            elif lv == "alt":
+                lst, e["j"] = live[i], 0
+                new = atom
+            elif lv == "arch":
+                lst, new = d["arch"], lambda: entry("arch")                          # noqa: E731
+            elif lv == "groups":
+                lst, new = d["restrictions"], lambda: [entry("prof") for _ in range(rng.randint(1, 3))]   # noqa: E731
+            else:
+                e["g"] = rng.randrange(len(d["restrictions"])) + 1
+                lst, new = d["restrictions"][e["g"] - 1], lambda: entry("prof")      # noqa: E731
+            ops = ["append", "insert", "set", "set"] + (["del", "rev"] if len(lst) > 1 else [])
+            e["op"] = rng.choice(ops)
+            if e["op"] in ("insert", "set", "del"):
+                e["k"] = rng.randrange(len(lst) + (1 if e["op"] == "insert" else 0)) + 1
+            if e["op"] in ("append", "insert", "set"):
+                e["x"] = new()
+                if e["op"] == "set" and lv in ("arch", "terms") and rng.random() < 0.5:
+                    old = lst[e["k"] - 1]                 # the namedtuple that is there, negated
+                    e["x"] = {"e": not old[0], "id": conc.intern("arch" if lv == "arch" else "prof", old[1])}
+        apply_edit(live, e, conc, rng.randrange(EDIT_STYLES))
+        out.append(e)
+    return out
+
+
 def check_case(ctx, rel_abs, codes, conc, diag, with_copy=True, history=True, order=None, variants=False, api=0,
                mixin=None):
     """one concretization of one TLC case; returns (message or None, produced string, structure).
@@ -1135,6 +1366,7 @@ def spec_negative_controls(ctx, quick=False):
         if r.violated != "MemoTransparent":
             raise core.MachineryError("negative control SharedNested (DeepStore = %s): expected TLC to report MemoTransparent, got %r" % (deep, r.violated))
         done.append("SharedNested%s -> MemoTransparent (PkgRelationMemo)" % (" + DeepStore" if deep == "TRUE" else ""))
+    done += edit_negative_controls(ctx, quick)
     # the count dimension: a splitter that stops after 256 separators (re.split(pattern, text, 256)) is invisible
     # to every list of at most 257 items (LimitBites holds in every state TLC looks at) and breaks the invariants
     # at 258 items -- at every list level
@@ -1158,6 +1390,35 @@ def spec_negative_controls(ctx, quick=False):
         if r.violated or not r.ok:
             raise core.MachineryError("negative control SplitLimit: LimitBites does not hold (%r)" % (r.violated,))
         done.append("SplitLimit = 256: the invariants fail exactly for the lists of more than 257 items (LimitBites holds in all %d states)" % r.distinct)
+    return done
+
+
+def edit_negative_controls(ctx, quick):
+    """PkgRelationEdit: a layer that remembers the text of a parsed / formatted dict is invisible only if the mutators
+    of EVERY container inside the dict drop the text"""
+    with open(os.path.join(core.SPEC, "MC_PkgRelationEdit_layer.cfg")) as f:
+        base = f.read()
+    opts = ["-XX:ParallelGCThreads=2", "-Xss64m"]
+    done = []
+    if not quick:
+        r = ctx.tlc("PkgRelationEdit", base, workers=2, java_opts=opts)
+        if r.violated or not r.ok:
+            raise core.MachineryError("specification PkgRelationEdit (remembering layer that forgets at every level) violates %s\n%s" % (r.violated, r.tail))
+        done.append("a layer remembering text per dict that forgets in the mutators of every nested container: EditProps holds in all %d states (PkgRelationEdit)" % r.distinct)
+    controls = [("parse", '{"key"}', None, "only the dict's own mutators forget (the seeded change C13-seedK)"),
+                ("format", '{"key"}', '{"bare"}', "text remembered at format time, a nested list that came in by key assignment is edited")]
+    if not quick:
+        controls.insert(1, ("parse", '{"key", "arch", "groups"}', None, "the groups inside the formula are not watched"))
+    for remember, forgets, starts, what in controls:
+        cfg = re.sub(r"(?m)^  Remember = .*$", '  Remember = "%s"' % remember, base)
+        cfg = re.sub(r"(?m)^  Forgets = .*$", "  Forgets = " + forgets, cfg)
+        if starts:
+            cfg = re.sub(r"(?m)^  Starts = .*$", "  Starts = " + starts, cfg)
+        assert cfg != base
+        r = ctx.tlc("PkgRelationEdit", cfg, workers=1, count=False, java_opts=opts)
+        if r.violated != "EditProps":
+            raise core.MachineryError("negative control Remember = %s, Forgets = %s: expected TLC to report EditProps, got %r" % (remember, forgets, r.violated))
+        done.append("Remember = %s, Forgets = %s%s (%s) -> EditProps (PkgRelationEdit)" % (remember, forgets, ", Starts = " + starts if starts else "", what))
     return done
 
 
@@ -1408,6 +1669,89 @@ def replay_count_cases(ctx, lines, workers, diag_into):
     return n
 
 
+# ------------------------------------------------------------------ (a'') replay of the edit histories
+
+def _edit_case_of(line):
+    v, h = _case_of(line)
+    return {"start": case_to_abstract(v["s"]), "edits": v["e"], "trail": [case_to_abstract(x) for x in v["tr"]],
+            "tokens": v["t"]}, h
+
+
+def edit_conc_need(c):
+    need = need_of(c["start"])
+    for r in c["trail"]:
+        for k, n in need_of(r).items():
+            need[k] = max(need[k], n)
+    for e in c["edits"]:
+        edit_need(e, need)
+    return need
+
+
+def _replay_edit(line):
+    """worker: one CASE line of PkgRelationEdit -- a start relation, a history of in-place edits of its parse and
+    TLC's structure after each of them -- on the real class"""
+    import random
+    c, h = _edit_case_of(line)
+    hs = h ^ (_W["seed"] * 40503)
+    rng = random.Random(hs)
+    mode = ("canonical", "ordinary", "ordinary", "boundary lengths")[(hs >> 3) % 4] if (hs >> 13) % 8 == 0 else \
+           ("canonical", "ordinary")[(hs >> 3) % 2]
+    conc = Conc.draw(rng, edit_conc_need(c), canonical=mode == "canonical", stress=mode == "boundary lengths")
+    order, api, style, each = (hs >> 4) % len(KEY_ORDERS), (hs >> 2) % API_VARIANTS, (hs >> 5) % EDIT_STYLES, (hs >> 7) % 2 == 0
+    msg, s = run_edits(build(c["start"], conc, order=order), c["edits"], c["trail"], conc, api, style, each)
+    drift = None
+    if msg is None and s != tokens_to_text(c["tokens"], conc):
+        drift = "formatter writes %r for an edited structure, Format predicts %r (blank details are not part of the property)" % (
+            s, tokens_to_text(c["tokens"], conc))
+    out = {"h": h, "levels": [e["lv"] + "." + e["op"] for e in c["edits"]], "n": len(c["edits"]), "each": each,
+           "msg": None, "case": None, "drift": drift, "sample": None}
+    if msg:
+        out["msg"] = "[in-place edits] " + msg
+        out["case"] = dict(c, kind="edit", conc=conc.to_json(), order=order, api=api, style=style, each=each)
+    elif h % 499 == 0:
+        out["sample"] = "CASE of PkgRelationEdit: result = parse_relations(%r); %s -> str(result) = %r parses back to the edited structure, no warning, same string again" % (
+            PkgRelation_str_of(c["start"], conc), "; ".join(describe_edit(e, conc) for e in c["edits"]), s)
+    return out
+
+
+def PkgRelation_str_of(rel_abs, conc):
+    """message text only"""
+    try:
+        return call_str(build(rel_abs, conc))
+    except Exception as e:       # noqa: BLE001
+        return "<%s>" % type(e).__name__
+
+
+def replay_edit_cases(ctx, lines, workers):
+    per, failing, drifts, samples = {}, [], set(), {}
+    n = nseq = 0
+    for res in workers.imap_unordered(_replay_edit, lines, chunksize=40):
+        n += 1
+        nseq += res["each"]
+        for lv in res["levels"]:
+            per[lv] = per.get(lv, 0) + 1
+        ctx.distinct.add(("edit", res["h"]))
+        if res["drift"]:
+            drifts.add(res["drift"])
+        if res["sample"]:
+            samples[res["h"]] = res["sample"]
+        if res["msg"]:
+            failing.append(((res["n"], len(res["msg"]), res["h"]), res["case"], res["msg"]))
+    ctx.evaluations += n
+    failing.sort(key=lambda x: x[0])
+    for _, case, msg in failing[:ctx.max_violation_files]:
+        ctx.violation(case, msg[:4000])
+    for d in sorted(drifts)[:2]:
+        ctx.drift(d[:700])
+    for h in sorted(samples)[:2]:
+        ctx.sample(samples[h][:900])
+    ctx.extra["edit_histories_replayed"] = n
+    ctx.extra["edit_histories_failing"] = len(failing)
+    ctx.extra["edit_histories_formatting_after_every_edit"] = nseq
+    ctx.extra["edits_per_container_and_mutator"] = dict(sorted(per.items()))
+    return n
+
+
 def split_form_counters(ctx, diag):
     """the counters of input forms / alignments (count_form) leave the diagnostics for their own evidence keys"""
     kinds, aligned, at = {}, {}, {}
@@ -1566,7 +1910,8 @@ def record(r_py, stats=None):
              "same": o["s2"] is not None and o["s2"] == o["s"],
              "tc": [], "pm": [], "mixok": False,
              "re": [], "rs": [], "ts": [], "ps": [], "warns": False, "sames": False,
-             "fmtsame": False}
+             "fmtsame": False,
+             "ed": {"es": [], "live": [], "t": [], "p": [], "warn": False, "same": False}}
     if not exc:
         # an equal structure whose dict keys are inserted in the order of parse_relations
         try:
@@ -1628,6 +1973,31 @@ def record(r_py, stats=None):
         except Malformed as e:
             trace["exc"] = hexc.split(" ")[0] if hexc else "MalformedResult"
             observed["exception"] = hexc or "a later parse_relations returned a value of the wrong shape (%s)" % e
+    if not trace["exc"]:
+        # the first string parsed once more; THAT structure edited in place (1 .. 4 random mutator calls at any
+        # nesting level), then formatted / parsed / formatted: TLC derives the edited structure (EditTrail)
+        import random
+        rng = random.Random(k ^ 0x5eed)
+        stage, edits = "parse_relations", []
+        try:
+            with warnings.catch_warnings(record=True):
+                warnings.simplefilter("always")
+                live = call_parse(o["s"], api + 1)
+                stage = "an in-place edit of the parsed structure"
+                edits = gen_edits(rng, live, conc, rng.choice((1, 1, 2, 3, 4)))
+            oe = run_real(live, api + 2)
+            if oe["exc"]:
+                raise Malformed(oe["exc"])
+            trace["ed"] = {"es": edits, "live": abstract(live, conc), "t": tokenize(oe["s"], conc), "p": abstract(oe["p"], conc),
+                           "warn": bool(oe["warn"]), "same": oe["s2"] == oe["s"]}
+            observed["edited"] = {"edits": [describe_edit(e, conc) for e in edits], "structure": repr(live), "string": oe["s"],
+                                  "parsed": repr(oe["p"]), "warnings": oe["warn"], "second_string": oe["s2"]}
+        except core.MachineryError:
+            raise
+        except Exception as e:       # noqa: BLE001 -- observation
+            trace["exc"] = "MalformedResult" if isinstance(e, Malformed) else type(e).__name__
+            observed["exception"] = "%s in %s (edits so far: %s): %s" % (
+                type(e).__name__, stage, "; ".join(describe_edit(x, conc) for x in edits), e)
     meta = {"kind": "trace", "abstract": r_abs, "conc": conc.to_json(), "string": o["s"], "observed": observed}
     return trace, meta
 
@@ -1768,6 +2138,18 @@ def control_traces(traces):
     if t:                                           # the formatter remembered the edited copy
         t["fmtsame"] = False
         out.append(t)
+    t = first(lambda t: t["ed"]["p"] != t["p"])
+    if t:                                           # the edited structure was written with the text it was parsed from
+        t["ed"]["t"], t["ed"]["p"] = list(t["t"]), copy.deepcopy(t["p"])
+        out.append(t)
+    t = first(lambda t: len(t["ed"]["es"]) >= 2)
+    if t:                                           # an edit the caller made is not in the history
+        del t["ed"]["es"][0]
+        out.append(t)
+    t = first(lambda t: True)
+    if t:                                           # the edited structure formats differently the second time
+        t["ed"]["same"] = False
+        out.append(t)
     for t in traces:
         if t["kind"] == "probe" and not t["exc"]:   # a probe whose warning flag is wrong
             out.append(dict(copy.deepcopy(t), warn=not t["warn"]))
@@ -1778,7 +2160,8 @@ def control_traces(traces):
 STEP = {0: "the string (diagnostic step)", 1: "Parse does not explain what parse_relations returned",
         2: "Inverse / NoWarning", 3: "Stable",
         4: "history: the same string parsed again after the caller edited the first result in place",
-        5: "history: a relation sharing an alternative / str(r) after formatting an edited copy / the relations property of a paragraph object"}
+        5: "history: a relation sharing an alternative / str(r) after formatting an edited copy / the relations property of a paragraph object",
+        6: "a structure obtained by editing a parse result in place (EditTrail) does not make the round trip"}
 
 
 BATCH = 4000     # traces per TLC invocation (JsonDeserialize holds the whole file in memory)
@@ -1788,7 +2171,7 @@ def validate(ctx, traces, with_controls=True, workers=2):
     controls = control_traces(traces) if with_controls else []
     if with_controls:
         good = sum(1 for t in traces if t["kind"] == "rt" and not t["exc"] and not t["warn"] and t["same"])
-        if len(controls) < 12 and good >= 50:
+        if len(controls) < 15 and good >= 50:
             raise core.MachineryError("only %d control traces could be built" % len(controls))
         if not controls:
             # the code under test fails every recorded round trip (they are all reported below): there is
@@ -1817,6 +2200,11 @@ def explain(meta, at):
     o = meta["observed"]
     if o["exception"]:
         return "str(r) = %s; raised %s" % (ab(meta["string"]), ab_s(o["exception"]))
+    if at >= 6 and o.get("edited"):
+        m = o["edited"]
+        return "[%s] result = parse_relations(%s); %s; now r = result = %s; str(r) = %s; parse_relations of it returned %s%s; second string %s" % (
+            STEP[6], ab(meta["string"]), "; ".join(m["edits"]), ab_s(m["structure"]), ab(m["string"]), ab_s(m["parsed"]),
+            ("; warnings %s" % ab(m["warnings"])) if m["warnings"] else "", ab(m["second_string"]))
     if at >= 5 and o.get("relations_property"):
         m = o["relations_property"]
         extra = "; %s returned %s%s, str of it %s, absent fields %s" % (
@@ -1945,7 +2333,12 @@ def run(ctx):
 def _run_parallel(ctx, quick, cfg, mc_dir, workers, ccfg):
     cnt_dir = os.path.join(ctx.work, "mc-count")
     os.makedirs(cnt_dir)
-    with ThreadPoolExecutor(max_workers=4) as pool:
+    edit_dir = os.path.join(ctx.work, "mc-edit")
+    os.makedirs(edit_dir)
+    ecfg = "MC_PkgRelationEdit_quick.cfg" if quick else "MC_PkgRelationEdit.cfg"
+    econsts = cfg_constants(ecfg)
+    ctx.extra["edit_history_constants"] = {k: econsts[k] for k in ("Starts", "DeepStarts", "MaxEdits")}
+    with ThreadPoolExecutor(max_workers=5) as pool:
         # 1. design level + emission (closed): all structures of the space, in the background (the
         #    bookkeeping of ctx.tlc is done below, in this thread)
         f_mc = pool.submit(core.run_tlc, "PkgRelation", cfg, mc_dir, workers=8, keep_raw=True, want_tags=set(),
@@ -1953,6 +2346,9 @@ def _run_parallel(ctx, quick, cfg, mc_dir, workers, ccfg):
         #    the count dimension: one list level with hundreds of items (every state is an initial state: one thread)
         f_cnt = pool.submit(core.run_tlc, "PkgRelationCount", ccfg, cnt_dir, workers=2, keep_raw=True, want_tags=set(),
                             timeout=900 if quick else 3600, java_opts=["-XX:ParallelGCThreads=2", "-Xss16m"])
+        #    in-place edits of a parse result: every history of mutator calls (PkgRelationEdit)
+        f_edit = pool.submit(core.run_tlc, "PkgRelationEdit", ecfg, edit_dir, workers=2 if quick else 4, keep_raw=True,
+                             want_tags=set(), timeout=900 if quick else 3600, java_opts=["-XX:ParallelGCThreads=2", "-Xss64m"])
         # 2. the invariants can fail
         f_neg = pool.submit(spec_negative_controls, ctx, quick)
         # 3. code -> spec: recorded executions on deeper structures, validated by TLC
@@ -1981,6 +2377,14 @@ def _run_parallel(ctx, quick, cfg, mc_dir, workers, ccfg):
         if ncount != rc.distinct:
             raise core.MachineryError("TLC found %d long-list states but %d CASE lines were read" % (rc.distinct, ncount))
         ctx.traces += ncount
+        nedit = replay_edit_cases(ctx, follow_lines(edit_dir, lambda: not f_edit.done()), workers)
+        re_ = f_edit.result()
+        shutil.rmtree(edit_dir, ignore_errors=True)
+        if re_.violated:
+            raise core.MachineryError("specification PkgRelationEdit violates %s\n%s" % (re_.violated, re_.tail))
+        if nedit != re_.distinct - int(econsts["Starts"].count('"') // 2):
+            raise core.MachineryError("TLC found %d edit-history states but %d CASE lines were read" % (re_.distinct, nedit))
+        ctx.traces += nedit
         split_form_counters(ctx, diag)
         ctx.extra["diagnostics"] = dict(sorted(diag.items()))
         ctx.extra["spec_negative_controls"] = f_neg.result()
@@ -1989,8 +2393,10 @@ def _run_parallel(ctx, quick, cfg, mc_dir, workers, ccfg):
                          "wall_s": round(r.wall, 2), "violated": r.violated})
     ctx.tlc_runs.append({"module": "PkgRelationCount", "generated": rc.generated, "distinct": rc.distinct, "depth": rc.depth,
                          "wall_s": round(rc.wall, 2), "violated": rc.violated})
-    ctx.states += r.distinct + rc.distinct
-    ctx.transitions += r.generated + rc.generated
+    ctx.tlc_runs.append({"module": "PkgRelationEdit", "generated": re_.generated, "distinct": re_.distinct, "depth": re_.depth,
+                         "wall_s": round(re_.wall, 2), "violated": re_.violated})
+    ctx.states += r.distinct + rc.distinct + re_.distinct
+    ctx.transitions += r.generated + rc.generated + re_.generated
     split_form_counters(ctx, ctx.extra.pop("recorded_input_forms", {}))
     judge_traces(ctx, traces, metas, rejected, info, fmt_drift)
 
@@ -2005,6 +2411,10 @@ def replay(ctx, case):
             r_big = big_variant(r_py, case["big"]["n"], case["big"]["how"])
             msg = judge(r_big, run_real(r_big, case.get("api", 0)))
         return msg
+    if case["kind"] == "edit":
+        msg, _ = run_edits(build(case["start"], conc, order=case.get("order")), case["edits"], case["trail"], conc,
+                           case.get("api", 0), case.get("style", 0), case.get("each", True))
+        return "[in-place edits] " + msg if msg else None
     if case["kind"] == "trace":
         r_py = build(case["abstract"], conc)
         tr, meta = record(r_py)
